@@ -40,7 +40,7 @@ def seeds(cid):
 
 
 def clean(wt):
-    sh(["git", "checkout", "--", "."], wt)
+    sh(["git", "reset", "-q", "--hard"], wt)
     sh(["git", "clean", "-fdq"], wt)
 
 
@@ -60,13 +60,17 @@ def confirm(cid):
         run = meta.get("demo_run") or "."
         st = {"confirmed": False}
         clean(wt)
+        head = subprocess.run(["git", "-C", "/repo", "rev-parse", "HEAD"], capture_output=True, text=True).stdout.strip()
+        sh(["git", "checkout", "-q", "--detach", head], wt)
+        st["repo_head"] = head[:7]
         pkgs = changed_pkgs(d) | {pkg}
         stub = bool(meta.get("needs_stub_modfile")) or any("httpserver" in p for p in pkgs)
         demo = os.path.join(wt, pkg, "zz_seed_demo_test.go")
         try:
             shutil.copy(d + "/demo_test.go", demo)
             rc0, out0 = gotest(wt, [pkg], run, stub)
-            rc, o = sh(["git", "apply", d + "/patch.diff"], wt)
+            rc, o = sh(["git", "apply", "-3", d + "/patch.diff"], wt)
+            sh(["git", "reset", "-q"], wt)
             if rc != 0:
                 st["error"] = "patch does not apply: " + o[-300:]
             else:
@@ -97,7 +101,16 @@ def check(cid, tier="quick"):
             print(d, "skipped (not confirmed)")
             continue
         clean(wt)
-        sh(["git", "apply", d + "/patch.diff"], wt)
+        head = subprocess.run(["git", "-C", "/repo", "rev-parse", "HEAD"], capture_output=True, text=True).stdout.strip()
+        sh(["git", "checkout", "-q", "--detach", head], wt)          # seeds are tried on the current /repo HEAD (with fixes and hooks)
+        arc, aout = sh(["git", "apply", "-3", d + "/patch.diff"], wt)
+        if arc != 0:
+            print(d, "patch no longer applies to /repo HEAD:", aout[-300:])
+            st["applies_to_head"] = False
+            json.dump(st, open(stp, "w"), indent=1)
+            clean(wt)
+            continue
+        sh(["git", "reset", "-q"], wt)
         try:
             rc, out = sh([os.path.join(V, "check"), cid.upper(), "--tier", tier], V, timeout=3600, env=dict(os.environ, VERIF_REPO=wt))
         finally:
